@@ -201,7 +201,9 @@ func denotes(p *reg.Pkg, e *yang.Entry, t *yang.YangType, v interface{}) (string
 		if !ok {
 			return "", false
 		}
-		b, err := base64.StdEncoding.Strict().DecodeString(s)
+		// RFC 4648 3.5: a decoder MAY reject non-zero pad bits ("QR=="); accepting them is no
+		// coercion (the octets are determined), so the reference decoder is the lenient one
+		b, err := base64.StdEncoding.DecodeString(s)
 		if err != nil {
 			return "", false
 		}
